@@ -161,7 +161,7 @@ def check_c04(tier, seed):
         R.coverage["type_universe_refused_by_generator"] = refused
         # hand-written invocations: several packages with one name in one invocation, files generated by other tools,
         # user types named like the emitter's hard-coded locals
-        for lbl, pkgs, files in TS.render_special(TM.root):
+        for lbl, pkgs, files in TS.render_special(TM.root, G.SplitMix64(seed * 29 + 11), 6 if tier == "quick" else 60):
             ty_cases += 1
             rc2, out2 = C.run([cli] + files, cwd=TM.root, extra_env=TM.env(), timeout=300)
             if rc2 != 0:
@@ -459,7 +459,7 @@ def names_e2e(R, repo_dir, tier, seed):
     n = 0
     try:
         cli = os.path.join(repo_dir, "kessoku")
-        for lbl, pkgs, files in TS.render_special(TM.root):
+        for lbl, pkgs, files in TS.render_special(TM.root, G.SplitMix64(seed * 29 + 11), 6 if tier == "quick" else 60):
             n += 1
             rc2, out2 = C.run([cli] + files, cwd=TM.root, extra_env=TM.env(), timeout=300)
             if rc2 != 0:
